@@ -362,7 +362,7 @@ def c02(report):
                               "were compared with the exact rational ridge solution and with numpy.linalg.solve")
     jobs = lin_jobs(report.tier, report.seed)
     ecf.run_jobs(report, jobs, by_clause("state.A", "state.Xty", "state.beta", "result.linear", "result.linalg",
-                                         "shape.rows", "call.exception"))
+                                         "result.manyrows", "shape.rows", "call.exception"))
     items = [("RidgeInitAinv", "Inv_C02_Unobserved"), ("XtyOverwritten", "Inv_C02_NormalEq"), ("FitKeepsA", "Prop_C07_FitIsFresh")]
     for dev, expect in (items if report.tier == "thorough" else items[: 1 + report.seed % 2]):
         ecf.lin_negative(report, dev, expect)
